@@ -10,6 +10,7 @@ pub mod reader_hist;
 pub mod scan_vectors;
 pub mod sink;
 pub mod source;
+pub mod stream;
 pub mod trace;
 pub mod writer_hist;
 
